@@ -16,8 +16,8 @@ Open Scope Z_scope.
    for ALL well-formed hierarchies without a plain-def re-definition of m in an extension type and
    ALL histories, every call (from Python, from C through the vtable, K.m(o)) runs the
    implementation Python lookup selects *)
-Theorem C27_dispatch_eq_nocache_partial : forall h ops, wf_hier h = true -> no_ext_def h = true ->
-  run_cy false false h (w0 h) ops = run_py h (p0 h) ops.
+Theorem C27_dispatch_eq_nocache_partial : forall h fx ops, wf_hier h = true -> no_ext_def h = true ->
+  run_cy false fx h (w0 h) ops = run_py h (p0 h) ops.
 Proof. exact dispatch_eq_nocache. Qed.
 Print Assumptions C27_dispatch_eq_nocache_partial.
 
@@ -62,10 +62,10 @@ Print Assumptions C27_dispatch_eq_cached_refuted.
 (* pre-filter soundness, both builds, every reachable state of every history: when the filter
    says "cannot be overridden" (static type without instance dict), Python lookup resolves to the
    wrapper of the very C body that sits in the vtable slot *)
-Theorem C27_prefilter_sound_partial : forall h cached ops oi o k, wf_hier h = true -> no_ext_def h = true ->
-  nth_error (w_objs (exec_cy cached false h (w0 h) ops)) oi = Some o ->
+Theorem C27_prefilter_sound_partial : forall h cached fx ops oi o k, wf_hier h = true -> no_ext_def h = true ->
+  nth_error (w_objs (exec_cy cached fx h (w0 h) ops)) oi = Some o ->
   prefilter h (os_cls o) = false -> vslot h (os_cls o) = Some k ->
-  lookup h (cd_w (exec_cy cached false h (w0 h) ops)) (os_cls o) (inst_m o) = TWrap k.
+  lookup h (cd_w (exec_cy cached fx h (w0 h) ops)) (os_cls o) (inst_m o) = TWrap k.
 Proof. exact prefilter_sound. Qed.
 Print Assumptions C27_prefilter_sound_partial.
 
@@ -81,14 +81,22 @@ Proof.
 Qed.
 Print Assumptions C27_prefilter_sound_refuted.
 
-(* the invariant carrying the cached theorem: established initially, preserved by every step of a
-   leaf-mutating history, and it makes every step agree with the Python semantics *)
-Theorem C27_cache_invariant_step : forall h cached cv w s o, wf_hier h = true ->
-  Inv h cv w -> Rel w s -> (cached = true -> cv = true) ->
-  (cv = true -> leaf_op h o = true) -> no_ext_def h = true ->
-  snd (step_cy cached false h w o) = snd (step_py h s o) /\
-  Inv h cv (fst (step_cy cached false h w o)) /\ Rel (fst (step_cy cached false h w o)) (fst (step_py h s o)).
-Proof. intros h cached cv w s o Hwf. exact (step_sim h Hwf cached cv w s o). Qed.
+(* the repaired variant fx (cache the result only for types whose bases are all immutable static
+   types; proposed_fixes/C27-stale_cache_base_class_mutation.diff): ALL histories *)
+Theorem C27_dispatch_eq_cached_fx : forall h ops, wf_hier h = true -> no_ext_def h = true ->
+  run_cy true true h (w0 h) ops = run_py h (p0 h) ops.
+Proof. exact dispatch_eq_cached_fx. Qed.
+Print Assumptions C27_dispatch_eq_cached_fx.
+
+(* the invariant carrying the cached theorems: established initially, preserved by every step
+   (leaf-class mutations for the code as it is, any mutation for fx), and it makes every step
+   agree with the Python semantics *)
+Theorem C27_cache_invariant_step : forall h fx cached cv w s o, wf_hier h = true ->
+  Inv h fx cv w -> Rel w s -> (cached = true -> cv = true) ->
+  (cv = true -> leaf_op h o = true \/ fx = true) -> no_ext_def h = true ->
+  snd (step_cy cached fx h w o) = snd (step_py h s o) /\
+  Inv h fx cv (fst (step_cy cached fx h w o)) /\ Rel (fst (step_cy cached fx h w o)) (fst (step_py h s o)).
+Proof. intros h fx cached cv w s o Hwf. exact (step_sim h Hwf fx cached cv w s o). Qed.
 Print Assumptions C27_cache_invariant_step.
 
 (* hypotheses are satisfiable on a non-trivial value: depth-3 hierarchy with an instance dict,
@@ -102,11 +110,11 @@ Example C27_nonvacuous :
   run_cy true false h (w0 h) ops = [RBody 1; RBody 1; RFn 9; RBody 1; RFn 7; RFn 7; RBody 0; RBody 1; RBody 1; RBody 0].
 Proof. vm_compute. repeat split; reflexivity. Qed.
 
-(* repaired variant fx (type version invalidated for all subclasses): the witness above is handled;
-   this is a test of the variant, not a theorem about it *)
+(* the repaired variant still caches: second C call on a direct Python subclass is a cache hit
+   (same results as without cache on a history with a base-class mutation) *)
 Example C27_fx_on_witness :
   let h := [mkcls Ext [0%nat] MCpdef false NoDict; mkcls Py [1%nat; 0%nat] MNone false Managed;
             mkcls Py [2%nat; 1%nat; 0%nat] MNone false Managed] in
-  let ops := [New 2; CallC 0; SetClass 1 (Fn 7); CallC 0] in
-  run_cy true true h (w0 h) ops = run_py h (p0 h) ops.
+  let ops := [New 2; CallC 0; SetClass 1 (Fn 7); CallC 0; New 1; CallC 1; CallC 1] in
+  run_cy true true h (w0 h) ops = [RBody 0; RFn 7; RFn 7; RFn 7].
 Proof. vm_compute. reflexivity. Qed.
